@@ -72,7 +72,9 @@ def body_fixed(rnd, kind):
         # an aggregate of the list INSIDE a foreach body over the same list
         agg = rnd.choice(["sum", "sum", "prod"])
         if agg == "sum":
-            return [FE("l", "i", [E(B(rnd.choice(["le", "lt"]), B("add", SUB("l", IX("i")), SUB("l", IX("i"))), {"k": "sum", "l": "l"}))], it=False, idx=True)]
+            # (no arithmetic on the element side: how wide l.sum is - and with it the width at which the other operand is
+            #  evaluated - is the library's choice, not part of the property)
+            return [FE("l", "i", [E(B(rnd.choice(["lt", "ne", "lt"]), SUB("l", IX("i")), {"k": "sum", "l": "l"}))], it=False, idx=True)]
         return [FE("l", "i", [E(B("gt", SUB("l", IX("i")), lit(0))), E(B("le", B("mul", SUB("l", IX("i")), lit(2)), {"k": "prod", "l": "l"}))], it=False, idx=True)]
     if kind in ("fe_toggle", "fe_dyn"):
         return [E(B("le", F("a"), lit(3)))]      # (the foreach lives in block c9, toggled by the history)
@@ -147,7 +149,7 @@ def family_fixed(tier, seed, n=None):
                     ops.append({"op": "list", "kind": "l_append", "p": "o1.nl", "vs": [bits(rnd.randrange(4), 2)]})
                 else:
                     ops.append({"op": "set", "p": "o1.k", "v": bits(rnd.randrange(4), 2)})
-                if kind == "index" and size < 3:
+                if kind in ("index", "idx_merge", "fe_agg") and size < 3:
                     ops.append({"op": "list", "kind": "l_assign", "p": "o1.l", "vs": [bits(0, 2)] * 3})
                     size = 3
                 elems = ["o1.l[%d]" % i for i in range(size)]
@@ -324,7 +326,9 @@ def family_objlist_randsz(tier, seed, n=None):
         tiny = t % 3 == 2
         if tiny:
             # few solver bits: TLC decides SolveFailure <=> no (size, values) candidate (fail_iff_unsat over sizes)
-            sub["fields"] = [fld("x", 3, False, rand=False, init=0), fld("y", 1, False), fld("z", 1, False, rand=False, init=rnd.randrange(2))]
+            # (z = 1: every populated element can meet its own block and the foreach body at every position, so the outcome
+            #  does not depend on whether the library also constrains the elements the list hides - which is not stated)
+            sub["fields"] = [fld("x", 3, False, rand=False, init=0), fld("y", 1, False), fld("z", 1, False, rand=False, init=1)]
         lo = rnd.choice([0, 1, 1])
         # the declared bound may exceed the population: the list can never expose more objects than the user appended
         hi = nobj + [0, 2, 1][t % 3]
